@@ -1,3 +1,4 @@
 pub mod seq;
 pub mod syncmon;
 pub mod restart;
+pub mod sched;
